@@ -283,7 +283,7 @@ def nontrivial(case, truth, res, mask, n):
     for f in fs:
         for d in f.get("decos", []):
             if d["t"] in ("require", "ensure") and (d.get("err") or {}).get("form") in ("lambda", "def", "method"):
-                if not S.is_truthy((truth.get(d["cid"]) or ["T"])[0]):
+                if any(not S.is_truthy(code_) for code_ in (truth.get(d["cid"]) or ["T"])):
                     return True
     return False
 
